@@ -41,6 +41,9 @@ var initialisedLater = map[string]string{
 	"execOpts.lockingScript": "nilable table", "execOpts.unlockingScript": "nilable table",
 }
 
+// dynamicNilable: fields added to the nilable table during a run (not stale entries of the written table).
+var dynamicNilable = map[string]bool{}
+
 func ruleNilSrc(c *Ctx) {
 	watch := map[string]bool{"Input": true, "Output": true, "UTXO": true, "Tx": true, "thread": true, "execOpts": true, "stack": true,
 		"ParsedOpcode": true, "opcode": true, "State": true, "InscriptionArgs": true, "scriptNumber": true, "FeeQuote": true, "Fee": true, "TxSize": true, "TxFees": true}
@@ -97,7 +100,11 @@ func ruleNilSrc(c *Ctx) {
 					case initialisedLater[k] != "":
 						c.OK("P-nilsrc", "omitted/"+k, cl.Pos(), "field omitted in a literal; confirmed harmless: "+initialisedLater[k])
 					default:
-						c.Undecided("P-nilsrc", "omitted/"+k, cl.Pos(), fmt.Sprintf("a composite literal of %s leaves reference field %s unset and the field is neither in the nilable table nor in the confirmed initialised-later list: engine P would assume it non-nil", named.Obj().Name(), fl.Name()))
+						// a field the tables do not know (added by a later change): it joins the nilable table for this
+						// run, so engine P demands a guard (or an assignment it can see) before every dereference
+						nilableFields[k] = true
+						dynamicNilable[k] = true
+						c.OK("P-nilsrc", "omitted/"+k, cl.Pos(), fmt.Sprintf("a composite literal of %s leaves reference field %s unset and no table knows the field: treated as nilable, every dereference needs a guard (engine P)", named.Obj().Name(), fl.Name()))
 					}
 				}
 				return true
